@@ -60,12 +60,13 @@ func (h HTTPIndexHandler) get(indexName string, w http.ResponseWriter) {
 }
 
 func (h HTTPIndexHandler) head(indexName string, w http.ResponseWriter) {
-	_, err := h.s.GetIndexReader(indexName)
+	rdr, err := h.s.GetIndexReader(indexName)
 	if err != nil {
-		w.WriteHeader(http.StatusOK)
+		w.WriteHeader(http.StatusNotFound)
 		return
 	}
-	w.WriteHeader(http.StatusNotFound)
+	rdr.Close()
+	w.WriteHeader(http.StatusOK)
 }
 
 func (h HTTPIndexHandler) put(indexName string, w http.ResponseWriter, r *http.Request) {
